@@ -95,3 +95,201 @@ def mkmesh(seq, cells, salt=0):
     q = _quiet(routes[k])
     ok = q is not None and type(q) is MeshPatt and tuple(q.pattern) == seq and frozenset(q.shading) == cells
     return q if ok else m
+
+
+# ----------------------------------------------------------------------------- extension (hardener hg1)
+# mkperm2 / mkmesh2: the same idea with more routes (copies via slicing/concatenation, copy/pickle round
+# trips, sums and removal, of_length items, add_point + sub_mesh_pattern, constructor on used parts,
+# members of all_syms(), two-step shading) and a size-aware `use` (the full warm-up is quadratic in the length).
+# churn(): many short-lived objects of the same kind that are queried and dropped (id()-keyed state).
+ROUTE_LOG = None      # a list while testing: (kind, route number, route was exercised)
+
+
+def _log(kind, k, ok):
+    if ROUTE_LOG is not None:
+        ROUTE_LOG.append((kind, k, ok))
+
+
+def use_perm_light(q):
+    """linear-time uses of a long permutation (as a value, as a pattern in itself, as a target)"""
+    from permuta import Perm
+    _quiet(lambda: (hash(q), q == Perm(tuple(q)), q.inverse(), q.reverse()))
+    _quiet(lambda: next(q.occurrences_in(q), None))                    # fills its memoised search table
+    _quiet(lambda: next(Perm((0,)).occurrences_in(q), None))
+    _quiet(lambda: q.contains(Perm((0, 1))))
+    _quiet(lambda: q.contains(Perm((1, 0))))
+    return q
+
+
+def _use_p(q):
+    return use_perm(q) if len(q) <= 40 else use_perm_light(q)
+
+
+N_PERM_ROUTES = 20
+
+
+def mkperm2(seq, salt=0):
+    import copy
+    import pickle
+    from permuta import Perm, MeshPatt
+    seq = tuple(seq)
+    n = len(seq)
+    p = Perm(seq)
+    k = _pick(("p2", seq, salt), N_PERM_ROUTES)
+    if k == 0:
+        return p
+    u = _use_p
+    if k == 1:
+        return u(p)
+    h = n // 2
+
+    def sib_p(ctor):
+        """siblings first: other values of the same length obtained through the same alternative constructor are
+        used and dropped before the object under test is made (state shared between such objects)"""
+        churn_perms(seq, lambda q: u(ctor(q)), 2)
+
+    routes = {
+        2: lambda: u(p.complement()).complement(),
+        3: lambda: u(p.reverse()).reverse(),
+        4: lambda: u(p.inverse()).inverse(),
+        5: lambda: u(p.rotate(1)).rotate(-1),
+        6: lambda: u(p.insert(0, 0)).remove(0),
+        7: lambda: (sib_p(lambda q: Perm.unrank(q.rank())), Perm.unrank(u(p).rank()))[1] if n < 15 else u(p).inverse().inverse(),
+        8: lambda: (sib_p(lambda q: Perm.from_string(str(q))), Perm.from_string(str(u(p))))[1] if n <= 10 else Perm(tuple(u(p))),
+        9: lambda: (lambda q: Perm(q[:h] + q[h:]))(u(p)),                    # slicing + concatenation
+        10: lambda: u(p.reverse_complement()).reverse_complement(),
+        11: lambda: u(p.flip_antidiagonal()).flip_antidiagonal(),
+        12: lambda: u(p.rotate(2)).rotate(2),
+        13: lambda: u(p.direct_sum(Perm((0,)))).remove(n),
+        14: lambda: u(Perm((0,)).skew_sum(p)).remove(0),
+        15: lambda: (sib_p(Perm.to_standard), Perm.to_standard(u(p)))[1],
+        16: lambda: copy.copy(u(p)),
+        17: lambda: pickle.loads(pickle.dumps(u(p))),
+        18: lambda: next(q for q in Perm.of_length(n) if q == p) if n <= 4 else u(p).get_perm(),
+        19: lambda: use_mesh(MeshPatt(u(p), ())).reverse().reverse().pattern if n <= 12
+        else MeshPatt(u(p), ()).reverse().reverse().pattern,
+    }
+    q = _quiet(routes[k])
+    ok = q is not None and tuple(q) == seq and type(q) is Perm
+    _log("p", k, ok)
+    return q if ok else p
+
+
+def use_mesh_light(m):
+    """uses of a long mesh pattern that stay (nearly) linear in the size of its shading"""
+    n = len(m)
+    _quiet(lambda: (hash(m), m == m))
+    _quiet(lambda: m.rotate(1))
+    _quiet(lambda: m.is_shaded((0, 0)))
+    _quiet(lambda: m.is_shaded((0, 0), (1, 1)))
+    _quiet(lambda: m.can_shade((n, n)))
+    _quiet(lambda: m.sub_mesh_pattern((0,)))
+    _quiet(lambda: next(m.occurrences_in(m.pattern), None))
+    return m
+
+
+def _use_m(m):
+    return use_mesh(m) if len(m) <= 8 else use_mesh_light(m)
+
+
+N_MESH_ROUTES = 20
+
+
+def mkmesh2(seq, cells, salt=0):
+    import copy
+    import pickle
+    from permuta import MeshPatt, Perm
+    seq = tuple(seq)
+    n = len(seq)
+    cells = frozenset(tuple(c) for c in cells)
+    m = MeshPatt(Perm(seq), cells)
+    k = _pick(("m2", seq, tuple(sorted(cells)), salt), N_MESH_ROUTES)
+    if k == 0:
+        return m
+    u = _use_m
+    if k == 1:
+        return u(m)
+    srt = sorted(cells)
+
+    def by_shade(count):
+        if len(srt) < count:
+            return None
+        j = _pick(("c", seq, salt), len(srt))
+        drop = [srt[(j + i) % len(srt)] for i in range(count)]
+        q = u(MeshPatt(Perm(seq), cells - set(drop)))
+        for c in drop:                       # one cell at a time: a chain of shade() results
+            q = q.shade(c)
+        return q
+
+    def by_point():
+        free = [(x, y) for x in range(n + 1) for y in range(n + 1) if (x, y) not in cells] if n <= 12 else []
+        if not free:
+            return None
+        c = free[_pick(("f", seq, salt), len(free))]
+        big = u(m).add_point(c)
+        return big.sub_mesh_pattern([i for i in range(n + 1) if i != c[0]])
+
+    def sib_m():
+        """siblings first: patterns with other shadings of the same permutation obtained through unrank are used
+        (rectangle queries included) and dropped before the object under test is made"""
+        def f(q):
+            r = MeshPatt.unrank(Perm(seq), q.rank())
+            u(r)
+            r.is_shaded((0, 0), (n, n))
+            r.sub_mesh_pattern(range(0, n, 2))
+        churn_meshes(seq, cells, f, 2)
+
+    routes = {
+        2: lambda: u(m.complement()).complement(),
+        3: lambda: u(m.reverse()).reverse(),
+        4: lambda: u(m.inverse()).inverse(),
+        5: lambda: u(m.rotate(1)).rotate(3),
+        6: lambda: by_shade(1),
+        7: lambda: (sib_m(), MeshPatt.unrank(Perm(seq), u(m).rank()))[1] if n <= 6 else None,
+        8: lambda: u(m).sub_mesh_pattern(range(n)),
+        9: lambda: (sib_m(), next(q for q in MeshPatt.of_length(n) if q == m))[1] if n <= 1 else
+        ((sib_m(), MeshPatt.unrank(mkperm2(seq, salt), u(m).rank()))[1] if n <= 6 else None),
+        10: by_point,
+        11: lambda: (lambda q: MeshPatt(q.pattern, q.shading))(u(m)),        # constructor on used parts
+        12: lambda: copy.copy(u(m)),
+        13: lambda: pickle.loads(pickle.dumps(u(m))),
+        14: lambda: u(m.flip_horizontal()).flip_horizontal().flip_diagonal().flip_diagonal(),
+        15: lambda: u(m.rotate(2)).rotate(-2),
+        16: lambda: u(m).shade(),                                            # shade() with nothing to add
+        17: lambda: next(q for q in u(m).all_syms() if q == m),
+        18: lambda: by_shade(2),
+        19: lambda: MeshPatt(mkperm2(seq, salt), cells),                     # underlying Perm with a past
+    }
+    q = _quiet(routes[k])
+    ok = q is not None and type(q) is MeshPatt and tuple(q.pattern) == seq and frozenset(q.shading) == cells
+    _log("m", k, ok)
+    return q if ok else m
+
+
+def churn_perms(seq, fn, count=6):
+    """`count` short-lived permutations of the same length as `seq` (rotations of its values) are created,
+    handed to fn (results and exceptions discarded) and dropped"""
+    from permuta import Perm
+    seq = tuple(seq)
+    n = len(seq)
+    for j in range(1, count + 1):
+        q = Perm(tuple((v + j) % n for v in seq)) if n else Perm(())
+        _quiet(lambda: fn(q))
+        del q
+
+
+def churn_meshes(seq, cells, fn, count=6):
+    """`count` short-lived mesh patterns on the same underlying permutation whose shadings differ from
+    `cells` in one cell each are created, handed to fn and dropped"""
+    from permuta import MeshPatt, Perm
+    seq = tuple(seq)
+    n = len(seq)
+    cells = set(tuple(c) for c in cells)
+    if any(not (0 <= x <= n and 0 <= y <= n) for x, y in cells):
+        return
+    for j in range(count):
+        c = ((j * 7 + 3) % (n + 1), (j * 5 + 1) % (n + 1))
+        q = _quiet(lambda: MeshPatt(Perm(seq), cells ^ {c}))
+        if q is not None:
+            _quiet(lambda: fn(q))
+        del q
